@@ -65,6 +65,12 @@ func (m Misbehaviour) ValidateBasic() error {
 	if m.Header2.TrustedValidators == nil {
 		return errorsmod.Wrap(ErrInvalidValidatorSet, "trusted validator set in Header2 cannot be empty")
 	}
+	if m.Header1.SignedHeader == nil || m.Header1.Header == nil {
+		return errorsmod.Wrap(ErrInvalidHeader, "misbehaviour Header1 signed header cannot be nil")
+	}
+	if m.Header2.SignedHeader == nil || m.Header2.Header == nil {
+		return errorsmod.Wrap(ErrInvalidHeader, "misbehaviour Header2 signed header cannot be nil")
+	}
 	if m.Header1.Header.ChainID != m.Header2.Header.ChainID {
 		return errorsmod.Wrap(clienttypes.ErrInvalidMisbehaviour, "headers must have identical chainIDs")
 	}
